@@ -244,23 +244,34 @@ func ReadPatchString(s string) (Diff, error) {
 		return diff, nil
 	}
 	var e DiffElement
+	// The operations each diff element was read from.
+	var ops [][]patchElement
 	for {
 		if len(patch) == 0 {
+			for i := range diff {
+				if err := checkPatchContext(ops[i], diff[i]); err != nil {
+					return nil, err
+				}
+			}
 			return diff, nil
 		}
+		before := patch
 		e, patch, err = readPatchDiffElement(patch)
 		if err != nil {
 			return nil, err
 		}
+		consumed := before[:len(before)-len(patch)]
 		// Coalece diff elements on the same path.
 		if len(diff) == 0 {
 			diff = append(diff, e)
+			ops = append(ops, consumed)
 		} else {
 			i := len(diff) - 1
 			// A removal after an addition is not coalesced: RFC 6902 applies
 			// operations in sequence, so it removes what was just added.
 			removeAfterAdd := len(e.Remove) > 0 && len(diff[i].Add) > 0
 			if diff[i].Path.JsonNode().Equals(e.Path.JsonNode()) && !hasPatchContext(e) && !removeAfterAdd {
+				ops[i] = append(ops[i][:len(ops[i]):len(ops[i])], consumed...)
 				diff[i].Remove = append(diff[i].Remove, e.Remove...)
 				if isAppendPath(e.Path) {
 					// Appending keeps the order of the operations
@@ -271,9 +282,48 @@ func ReadPatchString(s string) (Diff, error) {
 				}
 			} else {
 				diff = append(diff, e)
+				ops = append(ops, consumed)
 			}
 		}
 	}
+}
+
+// checkPatchContext checks that the context tests of a diff element read
+// from a JSON Patch address the neighbours of the edit: the element
+// before its index and the element after the values it removes. The diff
+// element keeps only the values of those tests, so a test aimed anywhere
+// else (for instance after more removals were coalesced into the
+// element) would be checked in the wrong place.
+func checkPatchContext(ops []patchElement, e DiffElement) error {
+	if len(e.Path) == 0 {
+		return nil
+	}
+	base, ok := e.Path[len(e.Path)-1].(PathIndex)
+	if !ok || base < 0 {
+		return nil
+	}
+	for i, op := range ops {
+		if op.Op != "test" {
+			continue
+		}
+		if i+1 < len(ops) && ops[i+1].Op == "remove" && ops[i+1].Path == op.Path {
+			// Not context: the test of a test / remove pair.
+			continue
+		}
+		p, err := readPointer(op.Path)
+		if err != nil {
+			return err
+		}
+		misplaced := fmt.Errorf("JSON Patch test op at %q is not next to the edit at %v", op.Path, e.Path.JsonNode().Json())
+		if len(p) != len(e.Path) || !p[:len(p)-1].JsonNode().Equals(e.Path[:len(e.Path)-1].JsonNode()) {
+			return misplaced
+		}
+		index, ok := p[len(p)-1].(PathIndex)
+		if !ok || (index != base-1 && index != base+PathIndex(len(e.Remove))) {
+			return misplaced
+		}
+	}
+	return nil
 }
 
 // hasPatchContext reports whether a diff element read from a JSON Patch
